@@ -4,7 +4,12 @@ Correspondence (shared with C11, see dgram_common.py): the real client functions
 onaccept_udp / udp_done / onaccept_tcp / expire_connections on a real ssnet.Mux, and the real
 server.main loop (real runonce, DnsProxy, UdpProxy, dns_req / udp_open / udp_req, sweeps) are run on
 event scripts with a virtual clock and scripted sockets; the extracted Coq model (coq/Model/Dgram.v)
-is run on the same scripts and every step (outputs + tables) is compared."""
+is run on the same scripts and every step (outputs + tables) is compared.
+Composed system (Props/C10.v c10_no_cross_composed): the real client functions and the real server.main loop are
+also run TOGETHER over two FIFO links on random system schedules (accept / server iteration / deliver) with unique
+query and answer payloads; oracle on the real code alone: an answer received on the resolver socket that carried
+query X is never handed to an asker other than X's — unless the run violates the stated system hypothesis
+(no_stale_alloc), which the harness evaluates on the run itself; the stale-reuse witness is replayed."""
 import os
 import sys
 
@@ -15,7 +20,9 @@ PROP = "C10"
 RULE = ("event scripts: mostly-valid life cycles (query->reply, query->error->retry->reply, duplicate/late replies, "
         "expiry at t-1/t/t+1 around the 30 s horizon, interleaved sources and destinations, UDP_CLOSE racing with data, "
         "ssnet.MAX_CHANNEL 1..8 forcing exhaustion and wrap-around) x payloads (empty, commas, NULs, 4096/4097 bytes) "
-        "plus a malformed stream (bad headers, frames for foreign channels, re-opened channels); a script is "
+        "plus a malformed stream (bad headers, frames for foreign channels, re-opened channels); server crashes are "
+        "judged by the script-level classification of c10_server_crash_classified; composed client+server runs on "
+        "random schedules with MAX_CHANNEL in {65535, 8, 2, 1}; a script is "
         "non-trivial when it delivers a datagram or runs more than two steps; distinct by content hash of the script")
 TRUSTED_BASE = [
     "modelled, not verified: CPython dict insertion order, bytes %-formatting of ints, bytes.split(b',', 2), struct.pack range checks",
@@ -27,7 +34,8 @@ ASSUMPTIONS = [
     "socket.socket() itself and getaddrinfo() of the configured name server do not fail (EMFILE / gaierror are outside the model)",
     "same address-family constants on both ends (the UDP path passes listener.family through int())",
     "virtual time is integral seconds; client and server clocks are independent non-decreasing inputs",
-    "c10_no_cross holds under NoStaleReuse (stated in Props/C10.v): an identifier is not re-allocated by the client while frames or server handlers of its previous incarnation are still alive",
+    "c10_no_cross / c10_no_cross_composed hold under NoStaleReuse (stated in Props/C10.v; at system level once, as no_stale_alloc): an identifier is not put on the wire for a new DNS query while a DNS_REQ, a server DnsProxy or a DNS_RESPONSE of its previous incarnation is still in flight; c10_stale_reuse_example shows the cross delivery without it (needs the allocator to wrap around within one link latency: 65535 allocations with the default MAX_CHANNEL)",
+    "whole-server no-crash theorems take the wire format for granted (16-bit identifiers) and, for 'never raises', a conforming peer (no DNS_REQ/UDP_OPEN on an open identifier, well-formed UDP bodies) and recvfrom peers of address size; for arbitrary scripts the possible exceptions are classified (c10_server_crash_classified)",
 ]
 
 
